@@ -27,7 +27,7 @@ PLAN = dict(
     assumptions=[
         "thread_local! semantics: another thread's CURRENT_STATE is outside the frame of every operation (Kani has one thread); the only shared writes are SCOPED_COUNT (taken symbolic) and the one-shot global",
         "atomicity of the GLOBAL_INIT compare_exchange (sequential execution only)",
-        "restoration on panic = Drop on unwind (Rust semantics); the harnesses drop the guard explicitly",
+        "restoration on panic = Drop on unwind (Rust semantics); the harnesses drop the guard explicitly, and one of them does so with std::thread::panicking() replaced by an unconstrained answer (the only thing that drop could observe about an unwind)",
     ],
     not_covered=["interleavings of set_global_default with emissions on other threads", "tracing::dispatch / tracing::collect re-exports (same functions)", "no_std build (no scoped defaults)"],
     verus=[dict(name="history", builder="build_history",
